@@ -105,7 +105,7 @@ MAX_INLINE_DEPTH = 12
 
 
 class ExecBase:
-    def __init__(self, repo: Repo, reg: Registry, prop="", feas_timeout_ms=300):
+    def __init__(self, repo: Repo, reg: Registry, prop="", feas_timeout_ms=60):
         self.repo = repo
         self.reg = reg
         self.prop = prop
@@ -127,6 +127,7 @@ class ExecBase:
         self.paths = 0
         self.warnings = []
         self._solver = None
+        ops_mod.CLASS_ID_HOOK[0] = self.class_id
         self.inv_tags = {}
         self._qf_cache = {}
         self.paranoid = bool(__import__('os').environ.get('PYVC_PARANOID'))
@@ -216,6 +217,10 @@ class ExecBase:
 
     def narrow(self, st, v, want: Sort):
         "a union value used where a specific type is expected: unwrap when the path condition fixes the tag"
+        if isinstance(v, VOpt) and not isinstance(want, TOpt) and v.sort.inner == want:
+            if not self.feasible(st, v.sort.is_none(v.t)):
+                return mk_val(v.sort.the(v.t), v.sort.inner)
+            return v
         if isinstance(v, VRec) and v.sort.nm == "PyVal":
             k = v.sort.get(v.t, "kind")
             if isinstance(want, TStrS) and not self.feasible(st, k != 1):
@@ -314,6 +319,12 @@ class ExecBase:
                     st.pc.append(z3.ForAll([k], z3.And(*sub.pc)))
         elif isinstance(v, VSet):
             st.pc.append(v.sort.card(v.t) >= 0)
+        elif isinstance(v, VRec) and isinstance(v.sort, TKDict):
+            ok = v.sort.get(v.t, "other_key")
+            for k in v.sort.keys:
+                st.pc.append(ok != z3.StringVal(k))
+            for k, so in v.sort.keys.items():
+                self.assume_wf(st, mk_val(v.sort.get(v.t, "v_" + k), so), nullable=True)
         elif isinstance(v, VRec):
             for f, s in v.sort.fields:
                 self.assume_wf(st, mk_val(v.sort.get(v.t, f), s), nullable=True)
